@@ -234,6 +234,15 @@ def error_case(case):
         out_path = None
         if kind == "missing-file":
             argv = [os.path.join(d, "nope.bob")]
+        elif kind == "unreadable-file":
+            # the file opens but is not UTF-8 text (one Latin-1 byte / a lone continuation byte / a truncated sequence)
+            p = os.path.join(d, "latin1.bob")
+            open(p, "wb").write([b"caf\xe9 +--+", b"+--+\n|\x80 |\n+--+", b"+-+ \xe4\xb8"][case["value"]])
+            argv = [p]
+        elif kind == "dir-as-file":
+            p = os.path.join(d, "adir.bob")
+            os.mkdir(p)
+            argv = [p]
         else:
             if in_mode == "file":
                 p = os.path.join(d, "in.bob")
@@ -320,6 +329,15 @@ def build_case(case, ref):
         else:  # missing input directory
             outdir = os.path.join(d, "out")
             argv = ["build", "-i", os.path.join(d, "nodir", "*.bob"), "-o", outdir]
+        if case.get("stale"):
+            # an output of the same name is already there, with other content and a modification time in the future
+            os.makedirs(outdir, exist_ok=True)
+            for n in names:
+                if n.endswith(".bob"):
+                    sp = os.path.join(outdir, n[:-4] + ".svg")
+                    open(sp, "w").write("<svg>stale output of an earlier build</svg>" * (40 if case["stale"] == "longer" else 1))
+                    t = time.time() + (3600 if case["stale"] != "older" else -3600)
+                    os.utime(sp, (t, t))
         failing = case.get("failing")
         if failing:
             # the target of one matching file cannot be written: a directory stands in its place
@@ -352,6 +370,8 @@ def build_case(case, ref):
         got_files = set(os.listdir(outdir)) if os.path.isdir(outdir) else set()
         if outdir == src:
             got_files -= before
+            if case.get("stale"):
+                got_files |= set(want_files) & set(os.listdir(outdir))
         if got_files != set(want_files):
             errs.append("written files %r, expected %r" % (sorted(got_files), sorted(want_files)))
         for fn, text in want_files.items():
@@ -417,6 +437,9 @@ def enumerate_cases(tier):
                 errs.append(dict(kind="bad-" + flag, in_mode=im, value=v))
         errs.append(dict(kind="out-missing-dir", in_mode=im))
         errs.append(dict(kind="out-is-dir", in_mode=im))
+    for v in range(3):
+        errs.append(dict(kind="unreadable-file", in_mode="file", value=v))
+    errs.append(dict(kind="dir-as-file", in_mode="file"))
     errs = errs + [dict(e, with_o=True) for e in errs if not e["kind"].startswith("out-")]
     if os.path.exists("/dev/full"):
         errs = errs + [dict(kind="stdout-full", in_mode=im) for im in in_modes]
@@ -428,6 +451,11 @@ def enumerate_cases(tier):
             for mode in ("outdir", "inplace", "cwd-default"):
                 builds.append(dict(files=list(combo), mode=mode))
     builds.append(dict(files=[], mode="missing"))
+    # outputs of the same name already exist (newer than the sources, older, longer)
+    for combo in (["a.bob"], ["a.bob", "b.bob", "c.txt"]):
+        for stale in ("newer", "older", "longer"):
+            for mode in ("outdir", "inplace"):
+                builds.append(dict(files=list(combo), mode=mode, stale=stale))
     # matching entries that are symbolic links
     for combo in (["a.bob"], ["a.bob", "b.bob"], ["a.bob", "c.txt", "sub/", "d.v2.bob"], ["e f.bob", "empty.bob"]):
         for links in ("rel", "abs"):
